@@ -4,7 +4,7 @@ from circuits import Component, handler
 from circuits.core import Value
 from circuits.net.events import write
 
-from .utils import dump_event, dump_value, load_event, load_value
+from .utils import dump_event, dump_value, is_value_packet, load_event, load_value
 
 
 DELIMITER = b'~~~'  # FIXME: delimiter could be part of regular message
@@ -90,7 +90,12 @@ class Protocol(Component):
         # FIXME: the encoding of values is hardcoded to UTF-8.
         # at least protect against DoS attempts causing UnicodeDecodeError
 
-        if '"value":' in packet:  # FIXME: this can also be part of a call-value
+        try:
+            value_packet = is_value_packet(packet)
+        except (TypeError, ValueError, RecursionError):
+            return
+
+        if value_packet:
             self.__process_packet_value(packet)
 
         else:
